@@ -95,7 +95,7 @@ def prog_id(spec):
 
 def build(spec, seed=0):
     torch.manual_seed(seed)
-    kw = {k: v for k, v in spec.items() if k not in ('fam', 'w', 'a', 'wtype', 'id', 'tier', 'seed', 'selftest', 'mps')}
+    kw = {k: v for k, v in spec.items() if k not in ('fam', 'w', 'a', 'wtype', 'id', 'tier', 'seed', 'selftest', 'mps', 'a_in', 'clip', 'ties')}
     m = FAMILIES[spec['fam']](**kw)
     dyadic_init(m, seed, den=8, lim=8)
     # eps must be positive for MPS' own BatchNorm folding; keep var + eps a power of 4
@@ -122,11 +122,31 @@ def make_mps(spec, seed=0, **kw):
     args = dict(spec.get('mps', {}))
     args.update(kw)
     qinfo = get_default_qinfo(tuple(spec.get('w', (2, 8))), tuple(spec.get('a', (4, 8))))
+    if spec.get('a_in'):
+        # the network input searches a precision set of its own (different from the layers' activations)
+        qinfo['input_default']['search_precision'] = tuple(spec['a_in'])
     wtype = MPSType.PER_CHANNEL if spec.get('wtype', 'layer') == 'channel' else MPSType.PER_LAYER
     torch.manual_seed(seed)
     m = MPS(model, input_shape=shape, qinfo=qinfo, w_search_type=wtype, **args)
     m.eval()
+    if spec.get('clip'):
+        trained_clips(m)
     return m, model, shape
+
+
+def trained_clips(m):
+    """move every PACT clipping threshold away from its initial value, as training does (dyadic values)"""
+    from plinio.methods.mps.quant.quantizers import PACTAct
+    vals = [3.0, 5.0, 2.5, 4.0, 7.0]
+    k = 0
+    seen = set()
+    with torch.no_grad():
+        for _, mod in m.named_modules():
+            if isinstance(mod, PACTAct) and id(mod) not in seen:
+                seen.add(id(mod))
+                mod.clip_val.fill_(vals[k % len(vals)])
+                k += 1
+    return k
 
 
 def quantizers(m):
@@ -141,8 +161,11 @@ def quantizers(m):
     return out
 
 
-def fresh_alphas(m, ex, gap=Fraction(1, 20), only=None):
+def fresh_alphas(m, ex, gap=Fraction(1, 20), only=None, ties=False):
+    """ties=False: coefficients of one decision pairwise `gap` apart.  ties=True: no gap; instead at least one decision has its
+    maximum attained twice (the uniform initialisation is such a point)"""
     pairs, sy = [], {}
+    tied = []
     for name, q in quantizers(m):
         if only is not None and not only(name):
             continue
@@ -153,9 +176,14 @@ def fresh_alphas(m, ex, gap=Fraction(1, 20), only=None):
             for i in range(len(col)):
                 ex.assume(col[i] >= -2, col[i] <= 2)
                 for j in range(i + 1, len(col)):
-                    ex.assume(z3.Or(col[i] - col[j] >= gap, col[j] - col[i] >= gap))
+                    if ties:
+                        tied.append(z3.And(col[i] == col[j], *[col[i] >= col[k] for k in range(len(col)) if k not in (i, j)]))
+                    else:
+                        ex.assume(z3.Or(col[i] - col[j] >= gap, col[j] - col[i] >= gap))
         pairs.append((q, 'alpha', a))
         sy[name] = a
+    if ties:
+        ex.assume(z3.Or(*tied))
     return pairs, sy
 
 
